@@ -44,6 +44,8 @@ META = {
   "implementations not listed: i32, i62, ec m31/m62/m64, x86ni/pclmul/sse2/power8 intrinsics",
   "production sizes (RSA/EC operand sizes, record lengths beyond the listed ones)",
   "the T0 handshake code (server handling of bad premaster / bad ECDH point)",
+  "complete EC point multiplication api_mul of ec_p256_m15 / ec_prime_i15 / ec_c25519_m15 and ECDSA/ECDH on top (translate and validate, but >10^6 observations per run: dropped); only the p256_m15 scalar-multiplication core p256_mul is covered (thorough tier)",
+  "RSA private-key operation br_rsa_i15_private / i31 (modular exponentiation is covered only as br_i15_modpow/modpow_opt at 42..77-bit moduli with 2-byte exponents)",
  ],
  "not_covered": [],
  "mutants_tried": [
@@ -220,31 +222,11 @@ entry("eax_check_tag", "C08_aead.c", ["src/aead/eax.c", SC + "aes_ct.c", SC + "a
       ["br_aes_ct_ctrcbc_init", "br_eax_init", "br_eax_reset", "br_eax_aad_inject", "br_eax_flip", "br_eax_run", "br_eax_check_tag_trunc"],
       [S("n5-a3-t16", 70, MODE=3, NB=5, AL=3, TL=16), S("n20-a7-t16", 70, MODE=3, NB=20, AL=7, TL=16, tier="thorough")],
       desc="EAX decryption sequence up to br_eax_check_tag_trunc over aes_ct CTR+CBC-MAC (all IR)", secret=AEADSEC, public="all lengths, addresses")
-# (g) EC point multiplication (thorough tier only: ~10^6 IR instructions per run)
+# (g) EC: only the scalar-multiplication core of ec_p256_m15 (thorough tier).  The complete api_mul of
+# ec_p256_m15 / ec_prime_i15 / ec_c25519_m15 translates and validates, but one run is 1.0-1.3 million
+# observations even for a 1-byte scalar (point decoding, modular inversion for the affine conversion,
+# 255 ladder steps for Curve25519 whatever the scalar length) -- hours of symex; dropped (META outside_claim).
 ECC = ["src/codec/ccopy.c", "src/codec/enc32be.c", "src/codec/dec32be.c"]
-entry("ec_p256_m15_mul", "C08_ec.c", ["src/ec/ec_p256_m15.c", "src/ec/ec_secp256r1.c"] + ECC, ["api_mul"],
-      [S("x1", 300, IMPL=1, XLEN=1, tier="thorough")], opts=("Os",), timeout=900,
-      desc="ec_p256_m15 api_mul (decode, multiply, to affine, encode), 1-byte scalar", secret="scalar, point coordinates", public="lengths, curve, addresses")
-entry("ec_c25519_m15_mul", "C08_ec.c", ["src/ec/ec_c25519_m15.c"] + ECC, ["api_mul"],
-      [S("x1", 300, IMPL=3, XLEN=1, tier="thorough")], opts=("Os",), timeout=900,
-      desc="ec_c25519_m15 api_mul (X25519 ladder), 1-byte scalar", secret="scalar, u coordinate", public="lengths, curve, addresses")
-entry("ec_prime_i15_mul", "C08_ec.c", ["src/ec/ec_prime_i15.c", "src/ec/ec_secp256r1.c", "src/ec/ec_secp384r1.c", "src/ec/ec_secp521r1.c"] + _int_tus(15) + ["src/codec/enc32be.c", "src/codec/dec32be.c"], ["api_mul"],
-      [S("x1", 300, IMPL=2, XLEN=1, tier="thorough")], opts=("Os",), timeout=900,
-      desc="ec_prime_i15 api_mul on P-256, 1-byte scalar", secret="scalar, point coordinates", public="lengths, curve, addresses")
-# ESP8266-like configuration (portable 32-bit code paths: BR_64=0, BR_LOMUL=1, no unaligned access) for the
-# implementations the ESP8266 build selects
-import copy as _copy
-for _nm in ("i15_montymul", "i15_muladd_small", "i15_modpow_opt", "ccopy", "hmac_outCT", "cbc_decrypt_md5", "aes_ct_cbcenc", "aes_ct_cbcdec", "des_ct_cbcenc",
-            "chacha20_ct", "poly1305_ctmul32", "ghash_ctmul32", "rsa_ssl_decrypt", "gcm_check_tag"):
-    _e = [x for x in ENTRIES if x["name"] == _nm][0]
-    _c = _copy.deepcopy(_e)
-    _c["name"] = _nm + "_esp"
-    _c["config"] = "esp"
-    _c["opts"] = ("Os",)
-    _c["quick_opts"] = ("Os",)
-    _c["sizes"] = [s for s in _c["sizes"] if s["tier"] == "quick"][:1]
-    _c["desc"] = _e["desc"] + " [ESP8266-like config]"
-    ENTRIES.append(_c)
 entry("ec_p256_m15_p256_mul", "C08_ecmul.c", ["src/ec/ec_p256_m15.c"] + ECC, ["p256_mul"],
       [S("x1", 300, XLEN=1, tier="thorough")], opts=("O0", "Os"), real_units=["src/ec/ec_secp256r1.c"] + ECC, timeout=900,
       desc="ec_p256_m15 p256_mul (window look-up by CCOPY, Jacobian double/add), 1-byte scalar", secret="scalar, point coordinate limbs", public="xlen, addresses")
@@ -485,13 +467,19 @@ def prepare():
 
 
 def write_logh(name, logn, divn):
-    """chunked observation logs for CBMC (see harness/C08_rt.h)"""
+    """chunked observation logs for CBMC (see harness/C08_rt.h): 64-entry chunks behind a two-level
+    table of pointers, every table at most 64 entries (so that each stays field-sensitive)"""
     o = ["#define C08_LOGN %d" % logn, "#define C08_DIVN %d" % divn]
     for fam, n in (("v0", logn), ("v1", logn), ("d0", divn), ("d1", divn)):
         k = (n + 63) // 64
+        if k > 64 * 64:
+            raise RuntimeError("observation log too large")
         for i in range(k):
             o.append("static uint64_t c08_%s_%d[64];" % (fam, i))
-        o.append("static uint64_t *const c08_%s[] = {%s};" % (fam, ", ".join("c08_%s_%d" % (fam, i) for i in range(k))))
+        k2 = (k + 63) // 64
+        for j in range(k2):
+            o.append("static uint64_t *const c08_%s_t%d[] = {%s};" % (fam, j, ", ".join("c08_%s_%d" % (fam, i) for i in range(64 * j, min(k, 64 * j + 64)))))
+        o.append("static uint64_t *const *const c08_%s[] = {%s};" % (fam, ", ".join("c08_%s_t%d" % (fam, j) for j in range(k2))))
     with open(os.path.join(GEN, name), "w") as f:
         f.write("\n".join(o) + "\n")
 
@@ -583,6 +571,9 @@ def extra_checks(tier, repo, builddir):
         r = run_query("C08", q)
         ok = r["verdict"] == "FAIL" and any("same " in f["description"] for f in r["failed"])
         rep = [f.get("replay", {}) for f in r.get("failed", [])]
+        for x in rep:
+            if x and x.get("path") and os.path.exists(x["path"]):
+                os.remove(x["path"])   # encoder self-test, not a finding: leave no replay file behind
         res.append({"query": "control-" + q.name, "verdict": "PASS" if ok else "INCONCLUSIVE", "kind": "encoding", "nontrivial": ok,
                     "reason": "" if ok else "negative control NOT flagged (encoder/harness insensitive): verdict %s %s" % (r["verdict"], r.get("reason", "")),
                     "desc": "negative control (known non-constant-time code must yield a counterexample): " + q.desc,
